@@ -31,6 +31,8 @@ def log(msg):
 
 def module_path(h):
     mount, modname = overlay.MOUNTS[h.file]
+    if mount.startswith("@"):
+        return "%s::%s" % (modname, h.name)
     p = mount[len("src/"):-len(".rs")]
     if p.endswith("/mod"):
         p = p[:-4]
@@ -111,6 +113,13 @@ def parse_kani_output(text, res):
     return verdict
 
 
+def base_dir(ov, h):
+    """directory of the overlay flavor this harness runs in"""
+    if overlay.MOUNTS[h.file][0] == overlay.DIFF_MOUNT:
+        return os.path.join(ov, "diff")
+    return os.path.join(ov, "nd") if h.flavor == "nodebug" else ov
+
+
 def run_one(h, ov, worker_dir, extra=None):
     res = Result(h)
     cmd = ["cargo", "kani", "--harness", module_path(h), "--exact", "--target-dir", worker_dir]
@@ -131,7 +140,10 @@ def run_one(h, ov, worker_dir, extra=None):
         resource.setrlimit(resource.RLIMIT_AS, (lim, lim))
 
     with open(logp, "w") as fh:
-        p = subprocess.Popen(cmd, cwd=ov, env=env, stdout=fh, stderr=subprocess.STDOUT, preexec_fn=limits)
+        cwd = base_dir(ov, h)
+        if h.flavor == "nodebug":
+            cmd[cmd.index("--target-dir") + 1] = worker_dir + "_nd"
+        p = subprocess.Popen(cmd, cwd=cwd, env=env, stdout=fh, stderr=subprocess.STDOUT, preexec_fn=limits)
         try:
             rc = p.wait(timeout=h.timeout)
             timed_out = False
@@ -256,16 +268,18 @@ def schedule(hs, ov, jobs, tier):
 
     def task(h):
         with lock:
-            while state["mem"] + h.mem > TOTAL_MEM_GB and state["running"] > 0 or not free_workers:
+            # budget by half the cap: the cap (RLIMIT_AS) is an upper bound on address space, the
+            # typical resident size of a passing harness is a fraction of it
+            while state["mem"] + h.mem / 2.0 > TOTAL_MEM_GB and state["running"] > 0 or not free_workers:
                 lock.wait()
-            state["mem"] += h.mem
+            state["mem"] += h.mem / 2.0
             state["running"] += 1
             w = free_workers.pop()
         try:
             r = run_one(h, ov, os.path.join(ov, "t%d" % w))
         finally:
             with lock:
-                state["mem"] -= h.mem
+                state["mem"] -= h.mem / 2.0
                 state["running"] -= 1
                 free_workers.append(w)
                 lock.notify_all()
@@ -341,7 +355,10 @@ def write_evidence(prop, tier, results, wall, violations, notes, known_lines):
 def main(args):
     gen_for, harnesses = registry.load()
     if args.make_overlay:
-        overlay.build(args.make_overlay, gen_for)
+        if args.prop == "diff":
+            overlay.build_diff(args.make_overlay, gen_for)
+        else:
+            overlay.build(args.make_overlay, gen_for)
         for h in harnesses:
             print(module_path(h))
         return 0
@@ -364,9 +381,15 @@ def main(args):
     ov = tempfile.mkdtemp(prefix="verif-ov-%s-" % prop, dir=SCRATCH_ROOT)
     rc = 2
     try:
-        overlay.build(ov, gen_for)
+        is_diff = any(overlay.MOUNTS[h.file][0] == overlay.DIFF_MOUNT for h in hs)
+        if is_diff:
+            overlay.build_diff(ov, gen_for)
+        else:
+            overlay.build(ov, gen_for)
+        if any(h.flavor == "nodebug" for h in hs):
+            overlay.build(os.path.join(ov, "nd"), gen_for, debug_assertions=False)
         log("%s tier=%s: %d harnesses, overlay %s" % (prop, args.tier, len(hs), ov))
-        pre = preflight(ov)
+        pre = preflight(os.path.join(ov, "diff") if is_diff else ov)
         if pre:
             log("INCONCLUSIVE overlay does not compile against /repo's working tree:")
             log(pre)
